@@ -61,8 +61,23 @@ def q_to_float(A):
     return np.array(quaternion.as_float_array(A), dtype=np.float64)
 
 
+_LAYOUT_COUNTER = [0]
+
+
 def q_from_float(F):
-    return quaternion.as_quat_array(np.ascontiguousarray(F, dtype=np.float64).copy())
+    """float (..., 4) -> quaternion array (a fresh copy).  For matrices the MEMORY LAYOUT of the result cycles
+    deterministically through C order, Fortran order and a transposed view (the layout the library's own
+    quat_hermitian returns): every routine's result must depend on the values of its arguments only, so every check
+    exercises layout independence for free (VERIF_LAYOUTS=0 switches the cycling off)."""
+    q = quaternion.as_quat_array(np.ascontiguousarray(F, dtype=np.float64).copy())
+    if q.ndim == 2 and min(q.shape) >= 2 and os.environ.get("VERIF_LAYOUTS", "1") != "0":
+        _LAYOUT_COUNTER[0] += 1
+        k = _LAYOUT_COUNTER[0] % 3
+        if k == 1:
+            q = np.asfortranarray(q)
+        elif k == 2:
+            q = np.ascontiguousarray(q.T).T
+    return q
 
 
 def to_int_lists(F):
